@@ -343,7 +343,7 @@ class Gen:
 
     SCENARIOS = ["diamond", "captured", "chain", "sites", "zipmap", "nestedzip", "sharedlit", "matrix",
                  "ntupleidx", "objkeys", "zipsizes", "arraynewmix", "samelit", "failedcompile", "triangle", "kwcall", "closureloop", "litfold", "paramzip", "objorder",
-                 "mapinner", "badret", "nestedparam", "twoarrparams", "matrices", "nestedacc", "zerolit", "outparties"]
+                 "mapinner", "badret", "nestedparam", "twoarrparams", "matrices", "nestedacc", "zerolit", "outparties", "arrayofop"]
 
     def scenario(self, k=None):
         rng = self.rng
@@ -397,6 +397,28 @@ class Gen:
                     self.do({"op": "arrayOf", "r": a, "size": 3})
                     arr = self.last()
                     self.do({"op": "map", "a": arr, "f": f})
+            return None
+        if k == "arrayofop":
+            # the legacy constructor `Array(value, size=n)` on values that are not inputs: an operation result, a function
+            # parameter, a literal (only an input's record may be declared an array; anything else is rejected)
+            x = self.new_input(T)
+            self.do({"op": "bin", "bop": "add" if "Boolean" not in T else "xor", "a": x, "b": x})
+            y = self.last()
+            self.do({"op": "arrayOf", "r": y, "size": 3})
+            made = [y] if self.m.regs[y] is not DEAD else []
+            if self.m.regs[self.last()] is not DEAD:
+                made.append(self.last())
+
+            def body(ps):
+                self.do({"op": "arrayOf", "r": ps[0], "size": 2})
+                self.do({"op": "bin", "bop": "add" if "Boolean" not in T else "xor", "a": ps[0], "b": ps[0]})
+                return self.last()
+            f = fn1(body)
+            if f is not None:
+                self.do({"op": "call", "f": f, "args": [x]})
+                if self.m.regs[self.last()] is not DEAD:
+                    made.append(self.last())
+            self.compile_now(prefer=made[::-1][:3])
             return None
         if k == "outparties":
             # parties that only receive outputs (two or three of them), one of which also owns an input that is referenced
